@@ -39,7 +39,9 @@ namespace
         {
             Plan p;
             int size = (int)r.range(2, tier == THOROUGH ? 67 : 17);
-            p.cfg = {size, (int64_t)r.below(4), (int64_t)r.below(2)};
+            // cfg[3]: how the ring head is set up: 0 ring_init(); 1..5 the static initialiser RING_HEAD_INIT with the size written as a
+            // plain name, a shift / conditional, an or, a sum, a comparison-free conditional on the other branch
+            p.cfg = {size, (int64_t)r.below(4), (int64_t)r.below(2), r.chance(1, 2) ? 0 : (int64_t)r.range(1, 5)};
             int n = (int)r.range(4, tier == THOROUGH ? 200 : 70);
             // stalls: phases in which only one side runs, so the ring runs full / empty
             int phase = 0, left = 0;
@@ -88,8 +90,27 @@ namespace
             simalloc::st().reset((int)p.c(1), p.c(2) != 0);
             char *buf = (char *)simalloc::raw_alloc(size); // exact-size backing store
             struct Free { char *b; unsigned n; ~Free() { simalloc::st().live.erase(b); ::free(b); } } fr{buf, size};
+            unsigned lg = 0;
+            while ((1u << (lg + 1)) <= size) lg++;
+            const bool pow2 = (1u << lg) == size;
+            const unsigned one = 1, zero = 0, half = size / 2, rest = size - size / 2;
+            ring_head r_fn;
+            if (ring_init(&r_fn, size) != &r_fn) violate("C03/result", "ring_init does not return its ring");
+            ring_head r_plain = RING_HEAD_INIT(size);
+            ring_head r_shift = RING_HEAD_INIT(pow2 ? one << lg : size);
+            ring_head r_or = RING_HEAD_INIT(size | zero);
+            ring_head r_sum = RING_HEAD_INIT(half + rest);
+            ring_head r_cond = RING_HEAD_INIT(zero ? 2 : size);
             ring_head r;
-            if (ring_init(&r, size) != &r) violate("C03/result", "ring_init does not return its ring");
+            switch (mod(p.c(3, 0), 6))
+            {
+            case 0: r = r_fn; break;
+            case 1: r = r_plain; probe("static_initialiser"); break;
+            case 2: r = r_shift; probe("static_initialiser"); break;
+            case 3: r = r_or; probe("static_initialiser"); break;
+            case 4: r = r_sum; probe("static_initialiser"); break;
+            default: r = r_cond; probe("static_initialiser"); break;
+            }
             std::deque<uint8_t> m;
             size_t capacity = size - 1;
             bool wrapped = false, was_full = false, was_empty_after_data = false;
